@@ -23,7 +23,7 @@ type Engine struct{}
 func (e *Engine) Name() string { return "repsim" }
 
 func init() {
-	sim.Register(&Engine{}, "C01", "C02", "C03", "C04", "C05", "C09", "C10")
+	sim.Register(&Engine{}, "C01", "C02", "C03", "C04", "C05", "C09", "C10", "C11", "C12")
 }
 
 const baseWall = 1_700_000_000
@@ -66,6 +66,9 @@ type repState struct {
 	staged   map[string]bool // cache replicas: bugs with uncommitted operations
 	partition map[int]bool
 	elapsed  int64
+	// discarded: bugs whose uncommitted (staged) operations were dropped by a close; their
+	// excerpt in the cache file still shows them until the bug is touched again
+	discarded map[string]bool
 }
 
 type run struct {
@@ -86,14 +89,19 @@ type run struct {
 	viol   map[string]bool
 	ntProbes map[string]bool
 	quiet  bool
+	detailPrefix string
 }
 
 func (x *run) violate(kind, format string, a ...interface{}) {
-	if x.viol[kind] {
+	key := kind
+	if x.detailPrefix != "" {
+		key = kind + "/attributed"
+	}
+	if x.viol[key] {
 		return // first of each kind per run is enough
 	}
-	x.viol[kind] = true
-	x.res.Violations = append(x.res.Violations, sim.Violation{Property: x.prop, Kind: kind, Detail: fmt.Sprintf(format, a...), Step: x.step})
+	x.viol[key] = true
+	x.res.Violations = append(x.res.Violations, sim.Violation{Property: x.prop, Kind: kind, Detail: x.detailPrefix + fmt.Sprintf(format, a...), Step: x.step})
 }
 
 // violateAs reports under a property other than the run's own only if it is the run's
@@ -209,7 +217,7 @@ func (x *run) setup() error {
 				return err
 			}
 		}
-		rs := &repState{r: r, alive: true, lastOps: map[string][]string{}, removed: map[string]bool{}, clocks: map[string]uint64{}, staged: map[string]bool{}, partition: map[int]bool{}}
+		rs := &repState{r: r, alive: true, lastOps: map[string][]string{}, removed: map[string]bool{}, clocks: map[string]uint64{}, staged: map[string]bool{}, partition: map[int]bool{}, discarded: map[string]bool{}}
 		x.reps = append(x.reps, rs)
 		n := 1 + p.CfgInt("extra_idents", 0)
 		for k := 0; k < n; k++ {
@@ -374,7 +382,7 @@ func (x *run) execStep(s *sim.Step) {
 	pre := x.observe(rs)
 	err := x.doStep(rs, s, pre)
 	switch s.Op {
-	case "pull", "merge", "fetch", "restart", "delclocks":
+	case "pull", "merge", "fetch", "restart", "delclocks", "losecache":
 		concurrent = true
 	}
 	if err == nil {
@@ -410,6 +418,10 @@ func (x *run) doStep(rs *repState, s *sim.Step, pre *obs) error {
 			_, e := x.newIdentity(rs, "extra "+s.S, "extra@example.org")
 			return e
 		})
+	case "remove":
+		err = x.guard("remove", func() error { return x.stepRemove(rs, s) })
+	case "losecache":
+		err = x.guard("reopen", func() error { return x.stepLoseCache(rs, s) })
 	case "restart":
 		err = x.guard("restart", func() error { return x.stepRestart(rs, s) })
 	case "delclocks":
@@ -1121,6 +1133,10 @@ func (x *run) stepRestart(rs *repState, s *sim.Step) error {
 			if err := r.CloseClean(); err != nil {
 				x.w.Log.Note("close error %v", err)
 			}
+			for id := range rs.staged {
+				rs.discarded[id] = true
+				x.probe("closed_with_uncommitted_operations")
+			}
 			rs.staged = map[string]bool{}
 		}
 		rs.alive = false
@@ -1136,6 +1152,55 @@ func (x *run) stepRestart(rs *repState, s *sim.Step) error {
 	x.probe("restart_" + s.K)
 	x.afterOpenClockCheck(rs)
 	return nil
+}
+
+// stepLoseCache: the cache and/or index directory is lost while the replica is cleanly closed.
+func (x *run) stepLoseCache(rs *repState, s *sim.Step) error {
+	r := rs.r
+	x.stepCommit(rs, &sim.Step{})
+	if err := r.CloseClean(); err != nil {
+		x.w.Log.Note("close error %v", err)
+	}
+	rs.staged = map[string]bool{}
+	rs.alive = false
+	gb := filepath.Join(r.Dir, ".git", "git-bug")
+	if s.N&1 != 0 {
+		_ = os.RemoveAll(filepath.Join(gb, "cache"))
+	}
+	if s.N&2 != 0 {
+		_ = os.RemoveAll(filepath.Join(gb, "indexes"))
+	}
+	x.w.Stats.Fault("cache-files-lost")
+	if err := r.Open(); err != nil {
+		if x.on("C11") {
+			x.violate("ids-differ", "replica %s cannot be reopened after its cache files were lost: %v", r.Name, err)
+		}
+		return err
+	}
+	rs.alive = true
+	x.probe("reopen_after_cache_loss")
+	return nil
+}
+
+// stepRemove removes a bug through the entity API or the cache API.
+func (x *run) stepRemove(rs *repState, s *sim.Step) error {
+	id := x.pickBug(rs, s.B)
+	if id == "" {
+		return fmt.Errorf("no bug")
+	}
+	var err error
+	if rs.r.Cache != nil {
+		err = rs.r.Cache.Bugs().Remove(id)
+	} else {
+		err = bug.Remove(rs.r.Sim, entity.Id(id))
+	}
+	if err == nil {
+		rs.removed[id] = true
+		delete(rs.staged, id)
+		delete(rs.lastOps, id)
+		x.probe("bug_removed")
+	}
+	return err
 }
 
 func (x *run) stepDelClocks(rs *repState, s *sim.Step) error {
@@ -1183,6 +1248,10 @@ func (x *run) nontrivial() bool {
 		return n["ident-updated"] || n["ident-diverged"]
 	case "C10":
 		return n["interp"]
+	case "C11":
+		return n["rebuild"]
+	case "C12":
+		return n["query"]
 	}
 	return len(n) > 0
 }
